@@ -22,6 +22,7 @@ import PynetVerif.Driver.Scp
 import PynetVerif.Driver.Pdu
 import PynetVerif.Driver.Release
 import PynetVerif.Driver.Timeouts
+import PynetVerif.Driver.Deliver
 open PynetVerif
 
 /-- Each model contributes `String → List SExp → Option SExp` (none = not my op). -/
@@ -48,7 +49,8 @@ def handlers : List (String → List SExp → Option SExp) :=
    Driver.scpOps,
    Driver.pduOps,
    Driver.releaseOps,
-   Driver.timeoutsOps]
+   Driver.timeoutsOps,
+   Driver.deliverOps]
 
 def handle (e : SExp) : SExp :=
   match e with
